@@ -57,19 +57,19 @@ pub fn single_op_space(tier: Tier, var: u64) -> Vec<Single> {
         for (op, kind) in &unary {
             out.push(Single {
                 family: "unary",
-                prog: Program { leaves: vec![leaf(d, 0, *kind, var)], nodes: vec![PNode { op: op.clone(), args: vec![0] }] },
+                prog: Program { leaves: vec![leaf(d, 0, *kind, var)], nodes: vec![PNode { op: op.clone(), args: vec![0] }], retrack: Vec::new() },
             });
         }
         for k in 1..=d.len() {
             out.push(Single {
                 family: "sum",
-                prog: Program { leaves: vec![leaf(d, 0, 1, var)], nodes: vec![PNode { op: OpK::Sum(k), args: vec![0] }] },
+                prog: Program { leaves: vec![leaf(d, 0, 1, var)], nodes: vec![PNode { op: OpK::Sum(k), args: vec![0] }], retrack: Vec::new() },
             });
         }
         for target in shapes_with_numel(numel(d), 4) {
             out.push(Single {
                 family: "reshape",
-                prog: Program { leaves: vec![leaf(d, 0, 1, var)], nodes: vec![PNode { op: OpK::Reshape(target), args: vec![0] }] },
+                prog: Program { leaves: vec![leaf(d, 0, 1, var)], nodes: vec![PNode { op: OpK::Reshape(target), args: vec![0] }], retrack: Vec::new() },
             });
         }
     }
@@ -86,6 +86,7 @@ pub fn single_op_space(tier: Tier, var: u64) -> Vec<Single> {
                     prog: Program {
                         leaves: vec![leaf(a, 0, 0, var), leaf(b, 1, 0, var)],
                         nodes: vec![PNode { op: op.clone(), args: vec![0, 1] }],
+                        retrack: Vec::new(),
                     },
                 });
             }
@@ -106,7 +107,7 @@ pub fn single_op_space(tier: Tier, var: u64) -> Vec<Single> {
         }
         out.push(Single {
             family: "matmul",
-            prog: Program { leaves, nodes: vec![PNode { op: OpK::Matmul { ta: c.ta, tb: c.tb, bias: c.c.is_some() }, args }] },
+            prog: Program { leaves, nodes: vec![PNode { op: OpK::Matmul { ta: c.ta, tb: c.tb, bias: c.c.is_some() }, args }], retrack: Vec::new() },
         });
     }
     // conv
@@ -120,6 +121,7 @@ pub fn single_op_space(tier: Tier, var: u64) -> Vec<Single> {
             prog: Program {
                 leaves: vec![leaf(&c.image, 0, 0, var), leaf(&c.filters, 1, 0, var)],
                 nodes: vec![PNode { op: OpK::Conv { sr: c.sr, sc: c.sc }, args: vec![0, 1] }],
+                retrack: Vec::new(),
             },
         });
     }
